@@ -224,6 +224,9 @@ def snapshot(root):
         for x in ds:
             out[os.path.relpath(os.path.join(d, x), root)] = None
         for x in fs:
+            if os.path.islink(os.path.join(d, x)):
+                out[os.path.relpath(os.path.join(d, x), root)] = ("symlink", os.readlink(os.path.join(d, x)))    # kept as it is: no effect goes through it
+                continue
             with _real_open(os.path.join(d, x), "rb") as f:
                 out[os.path.relpath(os.path.join(d, x), root)] = f.read()
     return out
@@ -276,6 +279,9 @@ def materialize(model, root):
         p = os.path.join(root, k)
         if model[k] is None:
             os.makedirs(p, exist_ok=True)
+        elif isinstance(model[k], tuple):
+            os.makedirs(os.path.dirname(p), exist_ok=True)
+            os.symlink(model[k][1], p)
         else:
             os.makedirs(os.path.dirname(p), exist_ok=True)
             with _real_open(p, "wb") as f:
